@@ -395,7 +395,7 @@ func (x *fleetExec) step(e engine.Event) {
 			w = 1
 		}
 		g, ok := refmodel.GranOf(w)
-		if !ok && x.prop == "C09" && w > 0 && w < 1e12 {
+		if (!ok || g < -45) && x.prop == "C09" && w > 0 && w < 1e12 {
 			// C09 quantifies over arbitrary non-negative float64 weights: the node becomes
 			// tainted (DESIGN 4.7) and only bit-for-bit transport of bins is compared
 			ok, g = true, 0
